@@ -19,6 +19,7 @@ use std::{io, path};
 use async_trait::async_trait;
 use bytes::Bytes;
 use tempfile::TempDir;
+use tokio::io::AsyncWriteExt;
 use tokio::sync::Semaphore;
 use tracing::{error, trace, warn};
 use url::Url;
@@ -100,8 +101,34 @@ impl super::Protocol for Protocol {
                 options.create(true).truncate(true);
             }
         }
-        if let Err(err) = tokio::fs::write(&full_path, content).await {
+        let mut file = match options.open(&full_path).await {
+            Ok(file) => file,
+            Err(err)
+                if write_mode == WriteMode::CreateNew
+                    && err.kind() == io::ErrorKind::AlreadyExists
+                    && tokio::fs::metadata(&full_path)
+                        .await
+                        .is_ok_and(|m| m.is_file() && m.len() == 0) =>
+            {
+                // An interrupted earlier write can leave an empty file, which has no content
+                // to lose: complete it.
+                options = tokio::fs::OpenOptions::new();
+                options
+                    .write(true)
+                    .open(&full_path)
+                    .await
+                    .map_err(|err| super::Error::io_error(&full_path, err))?
+            }
+            Err(err) => return Err(super::Error::io_error(&full_path, err)),
+        };
+        let written = match file.write_all(content).await {
+            Ok(()) => file.flush().await,
+            Err(err) => Err(err),
+        };
+        drop(file);
+        if let Err(err) = written {
             error!("Failed to write {full_path:?}: {err:?}");
+            // The file was new or empty when we opened it, so nothing older is lost.
             if let Err(err2) = tokio::fs::remove_file(&full_path).await {
                 error!("Failed to remove {full_path:?}: {err2:?}");
             }
